@@ -3,26 +3,20 @@
   totality analysis of `IC.tensor` / `HG.coproduct` / `OHG.tensor`, preservation of deep
   well-formedness, the list-of-lists view of a tensor, plain-model reading, types, and the
   algebra of the lax `coproduct` / `tensor`.
+
+  Everything lives in the flat namespace `OH.Tensor` (no additions to `OH.IC`, `OH.HG`, … so that
+  this file cannot clash with other lemma files).
 -/
 import OHVerif.Model.Lax
 import OHVerif.Spec.Diagram
 import OHVerif.Lemmas.Segs
 
-namespace OH
+namespace OH.Tensor
+open OH
 
 variable {α : Type} {O A : Type}
 
 /-! ### shifting -/
-
-theorem map_zero_add (l : List Nat) : l.map (0 + ·) = l := by
-  induction l with
-  | nil => rfl
-  | cons a l ih => simp
-
-theorem map_add_zero (l : List Nat) : l.map (· + 0) = l := by
-  induction l with
-  | nil => rfl
-  | cons a l ih => simp
 
 theorem filterMap_congr' {β γ : Type} {f g : β → Option γ} (l : List β) (h : ∀ a ∈ l, f a = g a) :
     l.filterMap f = l.filterMap g := by
@@ -47,282 +41,326 @@ theorem gatherP_append_shift (xs ys : List α) (i j : List Nat) (hi : ∀ a ∈ 
     intro a _
     simp [List.getElem?_append_right]
 
+/-- reading a list of node ids against the node labels of a juxtaposition (lax `source`/`target`) -/
+theorem mapM_get_append_shift (xs ys : List α) (i j : List Nat) (hi : ∀ a ∈ i, a < xs.length) :
+    (i ++ j.map (· + xs.length)).mapM (fun k => Prim.get (xs ++ ys) k) =
+      (do let a ← i.mapM (fun k => Prim.get xs k)
+          let b ← j.mapM (fun k => Prim.get ys k)
+          pure (a ++ b)) := by
+  have e1 : i.mapM (fun k => Prim.get (xs ++ ys) k) = i.mapM (fun k => Prim.get xs k) := by
+    induction i with
+    | nil => rfl
+    | cons a i ih =>
+      have ha := hi a (by simp)
+      rw [List.mapM_cons, List.mapM_cons, ih (fun b hb => hi b (by simp [hb]))]
+      simp [Prim.get, List.getElem?_append_left ha]
+  have e2 : (j.map (· + xs.length)).mapM (fun k => Prim.get (xs ++ ys) k) =
+      j.mapM (fun k => Prim.get ys k) := by
+    induction j with
+    | nil => rfl
+    | cons a j ih =>
+      rw [List.map_cons, List.mapM_cons, List.mapM_cons, ih]
+      simp [Prim.get, List.getElem?_append_right]
+  rw [List.mapM_append, e1, e2]
+
 /-! ### `FinFun.tensor` -/
 
-namespace FinFun
+theorem ff_tensor_assoc (f g h : FinFun) :
+    FinFun.tensor (FinFun.tensor f g) h = FinFun.tensor f (FinFun.tensor g h) := by
+  simp [FinFun.tensor, Nat.add_assoc, Function.comp_def]
 
-theorem tensor_assoc (f g h : FinFun) : tensor (tensor f g) h = tensor f (tensor g h) := by
-  simp [tensor, Nat.add_assoc, Function.comp_def]
+theorem ff_tensor_initial_left (f : FinFun) : FinFun.tensor ⟨[], 0⟩ f = f := by
+  cases f; simp [FinFun.tensor]
 
-theorem tensor_initial_left (f : FinFun) : tensor ⟨[], 0⟩ f = f := by
-  cases f; simp [tensor]
+theorem ff_tensor_initial_right (f : FinFun) : FinFun.tensor f ⟨[], 0⟩ = f := by
+  cases f; simp [FinFun.tensor]
 
-theorem tensor_initial_right (f : FinFun) : tensor f ⟨[], 0⟩ = f := by
-  cases f; simp [tensor]
-
-theorem tensor_WF {f g : FinFun} (hf : f.WF) (hg : g.WF) : (tensor f g).WF := by
+theorem ff_tensor_WF {f g : FinFun} (hf : f.WF) (hg : g.WF) : (FinFun.tensor f g).WF := by
   intro x hx
-  simp only [tensor, List.mem_append, List.mem_map] at hx ⊢
+  simp only [FinFun.tensor, List.mem_append, List.mem_map] at hx ⊢
   rcases hx with hx | ⟨y, hy, rfl⟩
   · have := hf x hx; omega
   · have := hg y hy; omega
 
-end FinFun
-
 /-! ### `IC.tensor` -/
 
-namespace IC
-
 /-- the data `IC.tensor` returns when it does not panic -/
-def tensorD (c d : IC FinFun) : IC FinFun :=
+def icTensorD (c d : IC FinFun) : IC FinFun :=
   ⟨⟨c.sources.table ++ d.sources.table, c.sources.target + d.sources.target - 1⟩,
    FinFun.tensor c.values d.values⟩
 
 /-- complete case analysis: `IC.tensor` never returns `none`, and panics exactly when both size
     maps have codomain `0` -/
-theorem tensor_total (c d : IC FinFun) :
-    tensor c d = if 1 ≤ c.sources.target + d.sources.target then .ok (tensorD c d)
+theorem ic_tensor_total (c d : IC FinFun) :
+    IC.tensor c d = if 1 ≤ c.sources.target + d.sources.target then .ok (icTensorD c d)
       else .panic "ic.tensor:underflow" := by
-  unfold tensor checkedSub tensorD
+  unfold IC.tensor checkedSub icTensorD
   split <;> rfl
 
-theorem wf_iff (c : IC FinFun) : c.wf = true ↔ c.valid = true ∧ c.sources.WF ∧ c.values.WF := by
-  simp [wf, FinFun.wf_iff, and_assoc]
+theorem ic_wf_iff (c : IC FinFun) : c.wf = true ↔ c.valid = true ∧ c.sources.WF ∧ c.values.WF := by
+  simp [IC.wf, FinFun.wf_iff, and_assoc]
 
-theorem valid_target_pos {V : Type} [HasLen V] (c : IC V) (h : c.valid = true) : 1 ≤ c.sources.target := by
-  have := ((valid_iff c).1 h).1; omega
+theorem ic_valid_target_pos {V : Type} [HasLen V] (c : IC V) (h : c.valid = true) :
+    1 ≤ c.sources.target := by
+  have := ((IC.valid_iff c).1 h).1; omega
 
-theorem tensor_ok_left (c d : IC FinFun) (hc : c.valid = true) : tensor c d = .ok (tensorD c d) := by
-  rw [tensor_total, if_pos]
-  have := valid_target_pos c hc; omega
-
-theorem tensor_ok_right (c d : IC FinFun) (hd : d.valid = true) : tensor c d = .ok (tensorD c d) := by
-  rw [tensor_total, if_pos]
-  have := valid_target_pos d hd; omega
-
-theorem tensorD_valid (c d : IC FinFun) (hc : c.valid = true) (hd : d.valid = true) :
-    (tensorD c d).valid = true := by
-  have ⟨h1, h2⟩ := (valid_iff c).1 hc
-  have ⟨h3, h4⟩ := (valid_iff d).1 hd
-  rw [valid_iff]
-  simp only [len_finfun] at h2 h4
-  simp only [tensorD, FinFun.tensor, List.sum_append, len_finfun, List.length_append, List.length_map]
+theorem icTensorD_valid (c d : IC FinFun) (hc : c.valid = true) (hd : d.valid = true) :
+    (icTensorD c d).valid = true := by
+  have ⟨h1, h2⟩ := (IC.valid_iff c).1 hc
+  have ⟨h3, h4⟩ := (IC.valid_iff d).1 hd
+  rw [IC.valid_iff]
+  simp only [IC.len_finfun] at h2 h4
+  simp only [icTensorD, FinFun.tensor, List.sum_append, IC.len_finfun, List.length_append,
+    List.length_map]
   omega
 
-theorem valid_sources_WF (c : IC FinFun) (hc : c.valid = true) : c.sources.WF := by
+theorem ic_valid_sources_WF (c : IC FinFun) (hc : c.valid = true) : c.sources.WF := by
   intro x hx
-  have := ((valid_iff c).1 hc).1
+  have := ((IC.valid_iff c).1 hc).1
   have := le_sum_of_mem' _ x hx
   omega
 
-theorem tensorD_wf (c d : IC FinFun) (hc : c.wf = true) (hd : d.wf = true) :
-    (tensorD c d).wf = true := by
-  obtain ⟨c1, _, c3⟩ := (wf_iff c).1 hc
-  obtain ⟨d1, _, d3⟩ := (wf_iff d).1 hd
-  rw [wf_iff]
-  refine ⟨tensorD_valid c d c1 d1, valid_sources_WF _ (tensorD_valid c d c1 d1), ?_⟩
-  exact FinFun.tensor_WF c3 d3
+theorem icTensorD_wf (c d : IC FinFun) (hc : c.wf = true) (hd : d.wf = true) :
+    (icTensorD c d).wf = true := by
+  obtain ⟨c1, _, c3⟩ := (ic_wf_iff c).1 hc
+  obtain ⟨d1, _, d3⟩ := (ic_wf_iff d).1 hd
+  rw [ic_wf_iff]
+  exact ⟨icTensorD_valid c d c1 d1, ic_valid_sources_WF _ (icTensorD_valid c d c1 d1),
+    ff_tensor_WF c3 d3⟩
 
 /-- the segments of a tensor: those of `c`, then those of `d` shifted by `c`'s value codomain -/
-theorem tensorD_segs (c d : IC FinFun) (hc : c.valid = true) :
-    (tensorD c d).segs = c.segs ++ d.segs.map (·.map (c.values.target + ·)) := by
-  have h2 := ((valid_iff c).1 hc).2
-  simp only [len_finfun] at h2
-  unfold segs tensorD FinFun.tensor
+theorem icTensorD_segs (c d : IC FinFun) (hc : c.valid = true) :
+    (icTensorD c d).segs = c.segs ++ d.segs.map (·.map (c.values.target + ·)) := by
+  have h2 := ((IC.valid_iff c).1 hc).2
+  simp only [IC.len_finfun] at h2
+  unfold IC.segs icTensorD FinFun.tensor
   simp only
   rw [splitSegs_append _ _ _ _ h2, splitSegs_map]
 
-theorem tensorD_len (c d : IC FinFun) : (tensorD c d).len = c.len + d.len := by
-  simp [tensorD, len, FinFun.source]
+theorem icTensorD_len (c d : IC FinFun) : (icTensorD c d).len = c.len + d.len := by
+  simp [icTensorD, IC.len, FinFun.source]
 
-theorem tensorD_assoc (c d e : IC FinFun) (hd : 1 ≤ d.sources.target) :
-    tensorD (tensorD c d) e = tensorD c (tensorD d e) := by
-  simp only [tensorD, FinFun.tensor_assoc, List.append_assoc]
+theorem icTensorD_assoc (c d e : IC FinFun) (hd : 1 ≤ d.sources.target) :
+    icTensorD (icTensorD c d) e = icTensorD c (icTensorD d e) := by
+  simp only [icTensorD, ff_tensor_assoc, List.append_assoc]
   congr 2
   omega
 
-theorem tensorD_initial_left (c : IC FinFun) : tensorD (initial 0) c = c := by
+theorem icTensorD_initial_left (c : IC FinFun) : icTensorD (IC.initial 0) c = c := by
   obtain ⟨⟨st, tg⟩, v⟩ := c
-  simp [tensorD, initial, FinFun.initial, FinFun.tensor_initial_left]
+  simp [icTensorD, IC.initial, FinFun.initial, ff_tensor_initial_left]
 
-theorem tensorD_initial_right (c : IC FinFun) : tensorD c (initial 0) = c := by
+theorem icTensorD_initial_right (c : IC FinFun) : icTensorD c (IC.initial 0) = c := by
   obtain ⟨⟨st, tg⟩, v⟩ := c
-  simp [tensorD, initial, FinFun.initial, FinFun.tensor_initial_right]
-
-end IC
+  simp [icTensorD, IC.initial, FinFun.initial, ff_tensor_initial_right]
 
 /-! ### `HG.coproduct` -/
 
-namespace HG
-
-def coproductD (g h : HG O A) : HG O A :=
-  ⟨IC.tensorD g.s h.s, IC.tensorD g.t h.t, g.w ++ h.w, g.x ++ h.x⟩
+def hgCoproductD (g h : HG O A) : HG O A :=
+  ⟨icTensorD g.s h.s, icTensorD g.t h.t, g.w ++ h.w, g.x ++ h.x⟩
 
 /-- complete case analysis of `HG.coproduct` -/
-theorem coproduct_total (g h : HG O A) :
-    coproduct g h =
+theorem hg_coproduct_total (g h : HG O A) :
+    HG.coproduct g h =
       if 1 ≤ g.s.sources.target + h.s.sources.target ∧ 1 ≤ g.t.sources.target + h.t.sources.target
-      then .ok (coproductD g h) else .panic "ic.tensor:underflow" := by
-  unfold coproduct coproductD
-  rw [IC.tensor_total, IC.tensor_total]
+      then .ok (hgCoproductD g h) else .panic "ic.tensor:underflow" := by
+  unfold HG.coproduct hgCoproductD
+  rw [ic_tensor_total, ic_tensor_total]
   by_cases h1 : 1 ≤ g.s.sources.target + h.s.sources.target <;>
     by_cases h2 : 1 ≤ g.t.sources.target + h.t.sources.target <;> simp [h1, h2]
 
-theorem wf_iff (h : HG O A) : h.wf = true ↔
+theorem hg_wf_iff (h : HG O A) : h.wf = true ↔
     h.s.wf = true ∧ h.t.wf = true ∧ h.s.len = h.x.length ∧ h.t.len = h.x.length ∧
     h.s.values.target = h.w.length ∧ h.t.values.target = h.w.length := by
-  simp [wf, and_assoc]
+  simp [HG.wf, and_assoc]
 
-theorem coproductD_wf (g h : HG O A) (hg : g.wf = true) (hh : h.wf = true) :
-    (coproductD g h).wf = true := by
-  obtain ⟨g1, g2, g3, g4, g5, g6⟩ := (wf_iff g).1 hg
-  obtain ⟨h1, h2, h3, h4, h5, h6⟩ := (wf_iff h).1 hh
-  rw [wf_iff]
-  refine ⟨IC.tensorD_wf _ _ g1 h1, IC.tensorD_wf _ _ g2 h2, ?_, ?_, ?_, ?_⟩
-  · simp [coproductD, IC.tensorD_len, g3, h3]
-  · simp [coproductD, IC.tensorD_len, g4, h4]
-  · simp [coproductD, IC.tensorD, FinFun.tensor, g5, h5]
-  · simp [coproductD, IC.tensorD, FinFun.tensor, g6, h6]
-
-theorem coproduct_ok (g h : HG O A) (hg : g.wf = true) :
-    coproduct g h = .ok (coproductD g h) := by
-  obtain ⟨g1, g2, -⟩ := (wf_iff g).1 hg
-  have a := IC.valid_target_pos _ ((IC.wf_iff _).1 g1).1
-  have b := IC.valid_target_pos _ ((IC.wf_iff _).1 g2).1
-  rw [coproduct_total, if_pos]
-  omega
+theorem hgCoproductD_wf (g h : HG O A) (hg : g.wf = true) (hh : h.wf = true) :
+    (hgCoproductD g h).wf = true := by
+  obtain ⟨g1, g2, g3, g4, g5, g6⟩ := (hg_wf_iff g).1 hg
+  obtain ⟨h1, h2, h3, h4, h5, h6⟩ := (hg_wf_iff h).1 hh
+  rw [hg_wf_iff]
+  refine ⟨icTensorD_wf _ _ g1 h1, icTensorD_wf _ _ g2 h2, ?_, ?_, ?_, ?_⟩
+  · simp [hgCoproductD, icTensorD_len, g3, h3]
+  · simp [hgCoproductD, icTensorD_len, g4, h4]
+  · simp [hgCoproductD, icTensorD, FinFun.tensor, g5, h5]
+  · simp [hgCoproductD, icTensorD, FinFun.tensor, g6, h6]
 
 /-- the hyperedges of a coproduct: those of `g`, then those of `h` with every incident node
     shifted by `g`'s node count -/
-theorem coproductD_toPlainEdges (g h : HG O A) (hg : g.wf = true) :
-    (coproductD g h).toPlainEdges =
+theorem hgCoproductD_toPlainEdges (g h : HG O A) (hg : g.wf = true) :
+    (hgCoproductD g h).toPlainEdges =
       g.toPlainEdges ++ h.toPlainEdges.map (PEdge.mapNodes (g.w.length + ·)) := by
-  obtain ⟨g1, g2, g3, g4, g5, g6⟩ := (wf_iff g).1 hg
-  have vs := ((IC.wf_iff _).1 g1).1
-  have vt := ((IC.wf_iff _).1 g2).1
+  obtain ⟨g1, g2, g3, g4, g5, g6⟩ := (hg_wf_iff g).1 hg
+  have vs := ((ic_wf_iff _).1 g1).1
+  have vt := ((ic_wf_iff _).1 g2).1
   have l1 : g.s.segs.length = g.x.length := by rw [IC.segs_length, g3]
   have l2 : g.t.segs.length = g.x.length := by rw [IC.segs_length, g4]
-  unfold toPlainEdges
-  simp only [coproductD]
-  rw [IC.tensorD_segs _ _ vs, IC.tensorD_segs _ _ vt, g5, g6,
+  unfold HG.toPlainEdges
+  simp only [hgCoproductD]
+  rw [icTensorD_segs _ _ vs, icTensorD_segs _ _ vt, g5, g6,
     List.zip_append (by rw [l1, l2]), List.zipWith_append (by simp [l1, l2])]
   congr 1
   rw [List.zip_map, List.zipWith_map_right, List.map_zipWith]
   rfl
 
-end HG
-
 /-! ### `OHG.tensor` -/
 
-namespace OHG
-
-def tensorD (f g : OHG O A) : OHG O A :=
-  ⟨FinFun.tensor f.s g.s, FinFun.tensor f.t g.t, HG.coproductD f.h g.h⟩
+def ohgTensorD (f g : OHG O A) : OHG O A :=
+  ⟨FinFun.tensor f.s g.s, FinFun.tensor f.t g.t, hgCoproductD f.h g.h⟩
 
 /-- complete case analysis of `OHG.tensor`: it never returns `none`; its only panic is the
     subtraction in `IC.tensor` -/
-theorem tensor_total (f g : OHG O A) :
-    tensor f g =
+theorem ohg_tensor_total (f g : OHG O A) :
+    OHG.tensor f g =
       if 1 ≤ f.h.s.sources.target + g.h.s.sources.target ∧
          1 ≤ f.h.t.sources.target + g.h.t.sources.target
-      then .ok (tensorD f g) else .panic "ic.tensor:underflow" := by
-  unfold tensor tensorD
-  rw [HG.coproduct_total]
+      then .ok (ohgTensorD f g) else .panic "ic.tensor:underflow" := by
+  unfold OHG.tensor ohgTensorD
+  rw [hg_coproduct_total]
   split <;> rfl
 
-theorem wf_iff (f : OHG O A) : f.wf = true ↔
+theorem ohg_wf_iff (f : OHG O A) : f.wf = true ↔
     f.h.wf = true ∧ f.s.WF ∧ f.t.WF ∧ f.s.target = f.h.w.length ∧ f.t.target = f.h.w.length := by
-  simp [wf, FinFun.wf_iff, and_assoc]
+  simp [OHG.wf, FinFun.wf_iff, and_assoc]
 
 /-- a well-formed diagram has strictly positive size-map codomains -/
-theorem wf_pos (f : OHG O A) (hf : f.wf = true) :
+theorem ohg_wf_pos (f : OHG O A) (hf : f.wf = true) :
     1 ≤ f.h.s.sources.target ∧ 1 ≤ f.h.t.sources.target := by
-  obtain ⟨h1, -⟩ := (wf_iff f).1 hf
-  obtain ⟨g1, g2, -⟩ := (HG.wf_iff _).1 h1
-  exact ⟨IC.valid_target_pos _ ((IC.wf_iff _).1 g1).1, IC.valid_target_pos _ ((IC.wf_iff _).1 g2).1⟩
+  obtain ⟨h1, -⟩ := (ohg_wf_iff f).1 hf
+  obtain ⟨g1, g2, -⟩ := (hg_wf_iff _).1 h1
+  exact ⟨ic_valid_target_pos _ ((ic_wf_iff _).1 g1).1, ic_valid_target_pos _ ((ic_wf_iff _).1 g2).1⟩
 
-theorem tensor_ok_left (f g : OHG O A) (hf : f.wf = true) : tensor f g = .ok (tensorD f g) := by
-  have := wf_pos f hf
-  rw [tensor_total, if_pos]; omega
+theorem ohg_tensor_ok_left (f g : OHG O A) (hf : f.wf = true) :
+    OHG.tensor f g = .ok (ohgTensorD f g) := by
+  have := ohg_wf_pos f hf
+  rw [ohg_tensor_total, if_pos]; omega
 
-theorem tensor_ok_right (f g : OHG O A) (hg : g.wf = true) : tensor f g = .ok (tensorD f g) := by
-  have := wf_pos g hg
-  rw [tensor_total, if_pos]; omega
+theorem ohg_tensor_ok_right (f g : OHG O A) (hg : g.wf = true) :
+    OHG.tensor f g = .ok (ohgTensorD f g) := by
+  have := ohg_wf_pos g hg
+  rw [ohg_tensor_total, if_pos]; omega
 
-theorem tensorD_wf (f g : OHG O A) (hf : f.wf = true) (hg : g.wf = true) : (tensorD f g).wf = true := by
-  obtain ⟨f1, f2, f3, f4, f5⟩ := (wf_iff f).1 hf
-  obtain ⟨g1, g2, g3, g4, g5⟩ := (wf_iff g).1 hg
-  rw [wf_iff]
-  refine ⟨HG.coproductD_wf _ _ f1 g1, FinFun.tensor_WF f2 g2, FinFun.tensor_WF f3 g3, ?_, ?_⟩
-  · simp [tensorD, HG.coproductD, FinFun.tensor, f4, g4]
-  · simp [tensorD, HG.coproductD, FinFun.tensor, f5, g5]
+theorem ohgTensorD_wf (f g : OHG O A) (hf : f.wf = true) (hg : g.wf = true) :
+    (ohgTensorD f g).wf = true := by
+  obtain ⟨f1, f2, f3, f4, f5⟩ := (ohg_wf_iff f).1 hf
+  obtain ⟨g1, g2, g3, g4, g5⟩ := (ohg_wf_iff g).1 hg
+  rw [ohg_wf_iff]
+  refine ⟨hgCoproductD_wf _ _ f1 g1, ff_tensor_WF f2 g2, ff_tensor_WF f3 g3, ?_, ?_⟩
+  · simp [ohgTensorD, hgCoproductD, FinFun.tensor, f4, g4]
+  · simp [ohgTensorD, hgCoproductD, FinFun.tensor, f5, g5]
 
-theorem tensorD_toPlain (f g : OHG O A) (hf : f.wf = true) :
-    (tensorD f g).toPlain = PDiag.juxt f.toPlain g.toPlain := by
-  obtain ⟨f1, -, -, f4, f5⟩ := (wf_iff f).1 hf
-  simp only [toPlain, PDiag.juxt, PDiag.n, tensorD, FinFun.tensor, f4, f5,
-    HG.coproductD_toPlainEdges _ _ f1]
+theorem ohgTensorD_toPlain (f g : OHG O A) (hf : f.wf = true) :
+    (ohgTensorD f g).toPlain = PDiag.juxt f.toPlain g.toPlain := by
+  obtain ⟨f1, -, -, f4, f5⟩ := (ohg_wf_iff f).1 hf
+  simp only [OHG.toPlain, PDiag.juxt, PDiag.n, ohgTensorD, FinFun.tensor, f4, f5,
+    hgCoproductD_toPlainEdges _ _ f1]
   rfl
 
-theorem source_ok (f : OHG O A) (hf : f.wf = true) : f.source = .ok (Prim.gatherP f.h.w f.s.table) := by
-  obtain ⟨-, f2, -, f4, -⟩ := (wf_iff f).1 hf
-  simp [source, FinFun.composeSemi_ok _ _ f2 f4]
+theorem ohg_source_ok (f : OHG O A) (hf : f.wf = true) :
+    f.source = .ok (Prim.gatherP f.h.w f.s.table) := by
+  obtain ⟨-, f2, -, f4, -⟩ := (ohg_wf_iff f).1 hf
+  simp [OHG.source, FinFun.composeSemi_ok _ _ f2 f4]
 
-theorem target_ok (f : OHG O A) (hf : f.wf = true) : f.target = .ok (Prim.gatherP f.h.w f.t.table) := by
-  obtain ⟨-, -, f3, -, f5⟩ := (wf_iff f).1 hf
-  simp [target, FinFun.composeSemi_ok _ _ f3 f5]
+theorem ohg_target_ok (f : OHG O A) (hf : f.wf = true) :
+    f.target = .ok (Prim.gatherP f.h.w f.t.table) := by
+  obtain ⟨-, -, f3, -, f5⟩ := (ohg_wf_iff f).1 hf
+  simp [OHG.target, FinFun.composeSemi_ok _ _ f3 f5]
 
-theorem tensorD_source (f g : OHG O A) (hf : f.wf = true) (hg : g.wf = true) :
-    (tensorD f g).source = .ok (Prim.gatherP f.h.w f.s.table ++ Prim.gatherP g.h.w g.s.table) := by
-  rw [source_ok _ (tensorD_wf f g hf hg)]
-  obtain ⟨-, f2, -, f4, -⟩ := (wf_iff f).1 hf
-  simp only [tensorD, HG.coproductD, FinFun.tensor, f4]
+theorem ohgTensorD_source (f g : OHG O A) (hf : f.wf = true) (hg : g.wf = true) :
+    (ohgTensorD f g).source =
+      .ok (Prim.gatherP f.h.w f.s.table ++ Prim.gatherP g.h.w g.s.table) := by
+  rw [ohg_source_ok _ (ohgTensorD_wf f g hf hg)]
+  obtain ⟨-, f2, -, f4, -⟩ := (ohg_wf_iff f).1 hf
+  simp only [ohgTensorD, hgCoproductD, FinFun.tensor, f4]
   rw [gatherP_append_shift]
   intro a ha; rw [← f4]; exact f2 a ha
 
-theorem tensorD_target (f g : OHG O A) (hf : f.wf = true) (hg : g.wf = true) :
-    (tensorD f g).target = .ok (Prim.gatherP f.h.w f.t.table ++ Prim.gatherP g.h.w g.t.table) := by
-  rw [target_ok _ (tensorD_wf f g hf hg)]
-  obtain ⟨-, -, f3, -, f5⟩ := (wf_iff f).1 hf
-  simp only [tensorD, HG.coproductD, FinFun.tensor, f5]
+theorem ohgTensorD_target (f g : OHG O A) (hf : f.wf = true) (hg : g.wf = true) :
+    (ohgTensorD f g).target =
+      .ok (Prim.gatherP f.h.w f.t.table ++ Prim.gatherP g.h.w g.t.table) := by
+  rw [ohg_target_ok _ (ohgTensorD_wf f g hf hg)]
+  obtain ⟨-, -, f3, -, f5⟩ := (ohg_wf_iff f).1 hf
+  simp only [ohgTensorD, hgCoproductD, FinFun.tensor, f5]
   rw [gatherP_append_shift]
   intro a ha; rw [← f5]; exact f3 a ha
 
-theorem tensorD_assoc (f g h : OHG O A)
+theorem ohgTensorD_assoc (f g h : OHG O A)
     (hg : 1 ≤ g.h.s.sources.target ∧ 1 ≤ g.h.t.sources.target) :
-    tensorD (tensorD f g) h = tensorD f (tensorD g h) := by
-  simp only [tensorD, HG.coproductD, FinFun.tensor_assoc, IC.tensorD_assoc _ _ _ hg.1,
-    IC.tensorD_assoc _ _ _ hg.2, List.append_assoc]
+    ohgTensorD (ohgTensorD f g) h = ohgTensorD f (ohgTensorD g h) := by
+  simp only [ohgTensorD, hgCoproductD, ff_tensor_assoc, icTensorD_assoc _ _ _ hg.1,
+    icTensorD_assoc _ _ _ hg.2, List.append_assoc]
 
-theorem identity_nil : (identity [] : Res (OHG O A)) = .ok ⟨⟨[], 0⟩, ⟨[], 0⟩, HG.empty⟩ := by
-  simp [identity, FinFun.identity_eq, HG.discrete, HG.empty]
+theorem ohg_identity_nil : (OHG.identity [] : Res (OHG O A)) = .ok ⟨⟨[], 0⟩, ⟨[], 0⟩, HG.empty⟩ := by
+  simp [OHG.identity, FinFun.identity_eq, HG.discrete, HG.empty]
 
-theorem tensorD_empty_left (f : OHG O A) : tensorD ⟨⟨[], 0⟩, ⟨[], 0⟩, HG.empty⟩ f = f := by
+theorem ohgTensorD_empty_left (f : OHG O A) : ohgTensorD ⟨⟨[], 0⟩, ⟨[], 0⟩, HG.empty⟩ f = f := by
   obtain ⟨s, t, ⟨hs, ht, w, x⟩⟩ := f
-  simp [tensorD, HG.coproductD, HG.empty, FinFun.tensor_initial_left, IC.tensorD_initial_left]
+  simp [ohgTensorD, hgCoproductD, HG.empty, ff_tensor_initial_left, icTensorD_initial_left]
 
-theorem tensorD_empty_right (f : OHG O A) : tensorD f ⟨⟨[], 0⟩, ⟨[], 0⟩, HG.empty⟩ = f := by
+theorem ohgTensorD_empty_right (f : OHG O A) : ohgTensorD f ⟨⟨[], 0⟩, ⟨[], 0⟩, HG.empty⟩ = f := by
   obtain ⟨s, t, ⟨hs, ht, w, x⟩⟩ := f
-  simp [tensorD, HG.coproductD, HG.empty, FinFun.tensor_initial_right, IC.tensorD_initial_right]
-
-end OHG
+  simp [ohgTensorD, hgCoproductD, HG.empty, ff_tensor_initial_right, icTensorD_initial_right]
 
 /-! ### lax -/
 
-namespace LHG
+theorem lhg_coproduct_assoc (f g h : LHG O A) :
+    LHG.coproduct (LHG.coproduct f g) h = LHG.coproduct f (LHG.coproduct g h) := by
+  simp [LHG.coproduct, Function.comp_def, Nat.add_assoc,
+    Nat.add_comm g.nodes.length f.nodes.length]
 
-theorem coproduct_assoc (f g h : LHG O A) :
-    coproduct (coproduct f g) h = coproduct f (coproduct g h) := by
-  simp [coproduct, Function.comp_def, Nat.add_assoc, Nat.add_comm g.nodes.length f.nodes.length]
-
-theorem coproduct_empty_left (f : LHG O A) : coproduct empty f = f := by
+theorem lhg_coproduct_empty_left (f : LHG O A) : LHG.coproduct LHG.empty f = f := by
   obtain ⟨n, e, a, q1, q2⟩ := f
-  simp [coproduct, empty]
+  simp [LHG.coproduct, LHG.empty]
 
-theorem coproduct_empty_right (f : LHG O A) : coproduct f empty = f := by
+theorem lhg_coproduct_empty_right (f : LHG O A) : LHG.coproduct f LHG.empty = f := by
   obtain ⟨n, e, a, q1, q2⟩ := f
-  simp [coproduct, empty]
+  simp [LHG.coproduct, LHG.empty]
 
-end LHG
+theorem lhg_wf_iff (h : LHG O A) : h.wf = true ↔
+    h.edges.length = h.adjacency.length ∧
+    (∀ e ∈ h.adjacency, (∀ x ∈ e.sources, x < h.nodes.length) ∧ (∀ x ∈ e.targets, x < h.nodes.length)) ∧
+    h.quotient.1.length = h.quotient.2.length ∧
+    (∀ x ∈ h.quotient.1, x < h.nodes.length) ∧ (∀ x ∈ h.quotient.2, x < h.nodes.length) := by
+  simp [LHG.wf, and_assoc]
 
-end OH
+theorem lhg_coproduct_wf (g h : LHG O A) (hg : g.wf = true) (hh : h.wf = true) :
+    (LHG.coproduct g h).wf = true := by
+  obtain ⟨g1, g2, g3, g4, g5⟩ := (lhg_wf_iff g).1 hg
+  obtain ⟨h1, h2, h3, h4, h5⟩ := (lhg_wf_iff h).1 hh
+  rw [lhg_wf_iff]
+  simp only [LHG.coproduct, List.length_append, List.length_map, List.mem_append, List.mem_map]
+  refine ⟨by omega, ?_, by omega, ?_, ?_⟩
+  · rintro e (he | ⟨e', he', rfl⟩)
+    · exact ⟨fun x hx => by have := (g2 e he).1 x hx; omega,
+             fun x hx => by have := (g2 e he).2 x hx; omega⟩
+    · simp only [List.mem_map]
+      exact ⟨by rintro x ⟨y, hy, rfl⟩; have := (h2 e' he').1 y hy; omega,
+             by rintro x ⟨y, hy, rfl⟩; have := (h2 e' he').2 y hy; omega⟩
+  · rintro x (hx | ⟨y, hy, rfl⟩)
+    · have := g4 x hx; omega
+    · have := h4 y hy; omega
+  · rintro x (hx | ⟨y, hy, rfl⟩)
+    · have := g5 x hx; omega
+    · have := h5 y hy; omega
+
+theorem lohg_wf_iff (f : LOHG O A) : f.wf = true ↔ f.hypergraph.wf = true ∧
+    (∀ x ∈ f.sources, x < f.hypergraph.nodes.length) ∧
+    (∀ x ∈ f.targets, x < f.hypergraph.nodes.length) := by
+  simp [LOHG.wf, and_assoc]
+
+theorem lohg_tensor_wf (f g : LOHG O A) (hf : f.wf = true) (hg : g.wf = true) :
+    (LOHG.tensor f g).wf = true := by
+  obtain ⟨f1, f2, f3⟩ := (lohg_wf_iff f).1 hf
+  obtain ⟨g1, g2, g3⟩ := (lohg_wf_iff g).1 hg
+  rw [lohg_wf_iff]
+  refine ⟨lhg_coproduct_wf _ _ f1 g1, ?_, ?_⟩
+  · simp only [LOHG.tensor, LHG.coproduct, List.length_append, List.mem_append, List.mem_map]
+    rintro x (hx | ⟨y, hy, rfl⟩)
+    · have := f2 x hx; omega
+    · have := g2 y hy; omega
+  · simp only [LOHG.tensor, LHG.coproduct, List.length_append, List.mem_append, List.mem_map]
+    rintro x (hx | ⟨y, hy, rfl⟩)
+    · have := f3 x hx; omega
+    · have := g3 y hy; omega
+
+end OH.Tensor
